@@ -129,8 +129,8 @@ O_OPEN_RETRY_MASKED = ob("O8.3", PF + "procfs_open_masked_retry_still_masked", "
 RETRY_STUBS = ["ProcfsHandle::open_base", "verify_same_procfs_mnt", "ProcfsResolver::resolve", "ProcfsHandle::new_unmasked"]
 O_RETRY = [
     ob("O8.4a", PF + "procfs_retry_masked_again", "retry logic of ProcfsHandle::open (open_base / verify_same_procfs_mnt replaced by contracts): masked handle + ENOENT, the handle from new_unmasked is masked AGAIN and also answers ENOENT: exactly one retry handle, ENOENT reported, all descriptors closed", stubs=RETRY_STUBS, covers_may_be_unsat=["retry succeeded", "no retry"], cost=7),
-    ob("O8.4b", PF + "procfs_retry_unmasked_handle", "... retry on a really unmasked handle, arbitrary outcome there: one retry, returned descriptor verified by the handle that produced it, retry handle closed", stubs=RETRY_STUBS, covers_may_be_unsat=["no retry"], cost=7),
-    ob("O8.4c", PF + "procfs_retry_handle_creation_fails", "... new_unmasked fails: the original ENOENT is reported, nothing leaked", stubs=RETRY_STUBS, covers_may_be_unsat=["retry succeeded", "retry did not help"], cost=6),
+    ob("O8.4b", PF + "procfs_retry_unmasked_handle", "... retry on a really unmasked handle, arbitrary outcome there: one retry, returned descriptor verified by the handle that produced it, retry handle closed", stubs=RETRY_STUBS, covers_may_be_unsat=["no retry"], mem_gb=30, timeout={"quick": 2400, "thorough": 5400}, cost=7),
+    ob("O8.4c", PF + "procfs_retry_handle_creation_fails", "... new_unmasked fails: the original ENOENT is reported, nothing leaked", stubs=RETRY_STUBS, covers_may_be_unsat=["retry succeeded", "no retry"], cost=6),
     ob("O8.4d", PF + "procfs_retry_not_for_other_errno", "... lookup fails with EACCES on a masked handle: no retry", stubs=RETRY_STUBS, covers_may_be_unsat=["retry succeeded", "retry did not help"], cost=6),
 ]
 O_OPEN_MASKED = ob("O8.1", PF + "procfs_open_masked", "ProcfsHandle::open on a masked (subset/hidepid) handle: ENOENT is retried on at most ONE freshly created handle (which may itself be masked), returned descriptors verified on the handle that produced them, retry handle closed", stubs=OPEN_STUBS, tiers=("thorough",), timeout={"thorough": 3000}, cost=9)
@@ -144,7 +144,7 @@ O_RP_MASK = ob("O5.2c", RP + "rprocfs_openat2_dispatch_and_mask", "ProcfsResolve
 O_RP_DISPATCH = ob("O7.1c", RP + "rprocfs_opath_dispatch", "ProcfsResolver::RestrictedOpath.resolve dispatches once to the emulated walk with arguments verbatim", stubs=["syscalls::openat2", "opath_resolve"], covers_may_be_unsat=["refused without"], cost=4)
 O_O2_OPEN = ob("O5.2a", O2 + "openat2_open_mask", "openat2::open for every flag word / rflags / path <= L: openat2(root, path, flags verbatim, resolve = IN_ROOT|NO_MAGICLINKS|rflags, mode 0)", stubs=["syscalls::openat2"], cost=3)
 O_O2_RESOLVE = ob("O5.2b", O2 + "openat2_resolve_mask", "openat2::resolve: O_PATH (+O_NOFOLLOW iff no_follow_trailing), resolve = IN_ROOT|NO_MAGICLINKS|rflags", stubs=["syscalls::openat2"], cost=3)
-O_O2_EAGAIN = ob("O10.1a", O2 + "openat2_resolve_eagain16", "openat2::resolve when openat2 keeps answering EAGAIN: exactly 16 attempts, then SafetyViolation (never a partial result), nothing leaked", stubs=["syscalls::openat2"], cost=6)
+O_O2_EAGAIN = ob("O10.1a", O2 + "openat2_resolve_eagain16", "openat2::resolve when openat2 keeps answering EAGAIN: exactly 16 attempts, then SafetyViolation (never a partial result), nothing leaked", stubs=["syscalls::openat2"], tiers=("thorough",), timeout={"thorough": 7200}, mem_gb=30, cost=6)
 O_O2_ENOSYS = ob("O10.1b", O2 + "openat2_resolve_enosys", "openat2::resolve on ENOSYS: NotSupported after one call", stubs=["syscalls::openat2"], cost=3)
 O_O2_EMFILE = ob("O10.1c", O2 + "openat2_resolve_emfile", "openat2::resolve on EMFILE: OsError(EMFILE) after one call, no retry", stubs=["syscalls::openat2"], cost=3)
 
@@ -184,6 +184,11 @@ C12_OBS = [
     ob("O12.2b", ROOT + "root_mkdir_all_tail_eexist", "... the first mkdirat answers EEXIST: tolerated, walk continues exactly as above", stubs=MK_STUBS, covers_may_be_unsat=["aborted midway", "nothing to create"], tiers=("thorough",), timeout={"thorough": 5400}, mem_gb=30, cost=8),
     ob("O12.2c", ROOT + "root_mkdir_all_tail_mkdir_fails", "... the first mkdirat fails with EACCES: abort with that errno after that single call, descriptors closed", stubs=MK_STUBS, covers_may_be_unsat=["one directory created", "two directories created"], tiers=("thorough",), timeout={"thorough": 5400}, mem_gb=30, cost=7),
     ob("O12.2d", ROOT + "root_mkdir_all_tail_open_fails", "... the open of the first created component fails: abort, descriptors closed", stubs=MK_STUBS, covers_may_be_unsat=["one directory created", "two directories created"], tiers=("thorough",), timeout={"thorough": 5400}, mem_gb=30, cost=7),
+    ob("O12.6a", ROOT + "root_mkdir_all_shape_a_b", "mkdir_all with the concrete tail 'a/b', EVERY valid mode, all kernel steps Ok: mkdirat(reopen fd,'a',mode) openat(..,'a',O_DIRECTORY|O_NOFOLLOW) mkdirat(fd of a,'b',mode) openat(fd of a,'b',..); handle = fd of b; intermediates closed", stubs=MK_STUBS, covers_may_be_unsat=["nothing to create", "one directory created", "dotdot refused", "aborted midway"], cost=8),
+    ob("O12.6b", ROOT + "root_mkdir_all_shape_a_dotdot", "mkdir_all with the concrete tail 'a/..': ENOENT before anything is created", stubs=MK_STUBS, covers_may_be_unsat=["nothing to create", "one directory created", "two directories created", "aborted midway"], cost=7),
+    ob("O12.6c", ROOT + "root_mkdir_all_shape_dot_a_slash", "mkdir_all with the concrete tail './a/': '.' and the empty component are skipped, exactly one directory", stubs=MK_STUBS, covers_may_be_unsat=["nothing to create", "two directories created", "dotdot refused", "aborted midway"], cost=7),
+    ob("O12.6d", ROOT + "root_mkdir_all_shape_a_b_open_fails", "tail 'a/b', the open of the freshly created 'a' fails: abort with that error, nothing else created, every descriptor closed", stubs=MK_STUBS, covers_may_be_unsat=["nothing to create", "one directory created", "two directories created", "dotdot refused"], cost=8),
+    ob("O12.6e", ROOT + "root_mkdir_all_shape_a_b_eexist", "tail 'a/b', both mkdirat answer EEXIST (racing creator): tolerated, walk completes", stubs=MK_STUBS, covers_may_be_unsat=["nothing to create", "one directory created", "two directories created", "dotdot refused", "aborted midway"], cost=8),
     ob("O12.2", ROOT + "root_mkdir_all_tail", "mkdir_all when the partial lookup stops with ENOENT and EVERY remaining tail <= L bytes: '..' among the components => ENOENT and nothing created; otherwise exactly mkdirat(cur,c,mode) + openat(cur,c,O_DIRECTORY|O_NOFOLLOW) per non-empty non-'.' component, chained through the opened fds; EEXIST tolerated, any other errno aborts; handle returned = last opened fd; intermediates closed [all fault combinations in one query]", stubs=MK_STUBS, tiers=("thorough",), timeout={"thorough": 5400}, mem_gb=24, cost=9),
     ob("O12.3", ROOT + "root_mkdir_all_complete", "mkdir_all when the path already resolves: O_DIRECTORY reopen of the handle, zero mkdirat", stubs=MK_STUBS, covers_may_be_unsat=["one directory", "two directories", "dotdot refused", "aborted midway"], tiers=("thorough",), timeout={"thorough": 5400}, mem_gb=30, cost=5),
     ob("O12.4", ROOT + "root_mkdir_all_partial_other_error", "mkdir_all when the partial lookup stopped for a reason other than ENOENT: that error, nothing created", stubs=["Resolver::resolve_partial"], covers_may_be_unsat=["nothing to create", "one directory", "two directories", "dotdot refused", "aborted midway"], tiers=("thorough",), cost=5),
@@ -216,8 +221,8 @@ C11_CAPI = [
 ]
 
 NEW_STUBS = ["syscalls::fsopen", "syscalls::open_tree", "syscalls::openat_follow"]
-O_NEW_FAIL = ob("O10.4", PF + "procfs_new_all_fail", "ProcfsHandle::new when fsopen, open_tree and open all fail (fd exhaustion): a clean error after exactly one attempt each, nothing left open", stubs=NEW_STUBS, cost=4)
-O_GLOBAL_INIT = ob("O10.5", PF + "procfs_global_handle_init_fault", "first use of GLOBAL_PROCFS_HANDLE while every constructor fails: must not panic [KNOWN FINDING KF1: it does]", stubs=NEW_STUBS, covers_may_be_unsat=["reached"], cost=4)
+O_NEW_FAIL = ob("O10.4", PF + "procfs_new_all_fail", "ProcfsHandle::new when fsopen, open_tree and open all fail (fd exhaustion): a clean error after exactly one attempt each, nothing left open", stubs=NEW_STUBS, tiers=("thorough",), timeout={"thorough": 7200}, mem_gb=30, cost=4)
+O_GLOBAL_INIT = ob("O10.5", PF + "procfs_global_handle_init_fault", "first use of GLOBAL_PROCFS_HANDLE when ProcfsHandle::new() fails (as it does under fd exhaustion: O10.4): must not panic [KNOWN FINDING KF1: it does]", stubs=["ProcfsHandle::new"], covers_may_be_unsat=["reached"], cost=2)
 C10_OBS = [O_NEW_FAIL, O_GLOBAL_INIT, O_TFF_FAULT, O_O2_EAGAIN, O_O2_ENOSYS, O_O2_EMFILE, O_FETCH_MNT, O_SAME_MNT, O_IS_PROCFS] + \
     pick(C14_OPS, "O14.6.base", "O14.5.base", "O14.1.base") + pick(C12_OBS, "O12.2a", "O12.2c", "O12.2d") + \
     pick(C13_OBS, "O13.1a", "O13.1b", "O13.1g", "O13.3a", "O13.3b", "O13.3c") + [o for o in O_ERR_EQUIV]
@@ -297,7 +302,7 @@ PROPERTIES = {
         "explanation": "C12 (sequential part): Root::mkdir_all is executed with Resolver::resolve_partial and Handle::reopen replaced by contract stubs; the not-yet-existing tail is every byte string <= L, the mode every u32, the kernel arbitrary.",
         "outside": "convergence of concurrent callers (Kani has no threads); that the handle equals an independent in-root resolution (resolver); umask / setgid inheritance (kernel); tails longer than L",
         "assumptions": ["resolve_partial returns (arbitrary in-root fd, arbitrary tail) per its contract", "Handle::reopen returns an arbitrary fd of the same object or an error"],
-        "bounds": {"quick": {"PATH_L": 2}, "thorough": {"PATH_L": 3}},
+        "bounds": {"quick": {"PATH_L": 4}, "thorough": {"PATH_L": 4}},
         "obligations": C12_OBS,
     },
     "C05": {
